@@ -81,9 +81,16 @@ Proof.
   - rewrite GcsMatchProofs.firstn_repeat by lia. reflexivity.
 Qed.
 
-Theorem DeriveKey_tie (CB : option (list N) -> list N) kh :
+(* (phase 5) keyHash.CloneBytes() on a nil *chainhash.Hash panics: the ties about key hashes need kh <> None *)
+Lemma deref_nn_bind {A B} (o : option A) (k : res B) : o <> None -> (do _ <- Go3.deref o ;; k) = k.
+Proof. destruct o; [reflexivity|congruence]. Qed.
+
+Theorem DeriveKey_tie (CB : option (list N) -> list N) kh : kh <> None ->
   Kernels3.DeriveKey CB kh = Ok (derive_key (CB kh)).
-Proof. unfold Kernels3.DeriveKey, derive_key. now rewrite copy_key_eq. Qed.
+Proof. intro Hkh. unfold Kernels3.DeriveKey, derive_key. rewrite deref_nn_bind by exact Hkh. now rewrite copy_key_eq. Qed.
+
+Theorem DeriveKey_nil (CB : option (list N) -> list N) : Kernels3.DeriveKey CB None = Panic 5.
+Proof. reflexivity. Qed.
 
 Lemma copy_key_16 key : length key = 16%nat -> copy_key key = key.
 Proof.
@@ -102,13 +109,13 @@ Proof.
   - eexists; split; [reflexivity|exact H].
 Qed.
 
-Theorem SetKeyFromHash_tie (CB : option (list N) -> list N) g b kh : brel g b ->
+Theorem SetKeyFromHash_tie (CB : option (list N) -> list N) g b kh : kh <> None -> brel g b ->
   step_ok (Kernels3.GCSBuilder_SetKeyFromHash CB g kh) (set_key_from_hash b (CB kh)).
 Proof.
-  intros H. unfold Kernels3.GCSBuilder_SetKeyFromHash, set_key_from_hash.
+  intros Hkh H. unfold Kernels3.GCSBuilder_SetKeyFromHash, set_key_from_hash.
   pose proof (SetKey_tie g b (derive_key (CB kh)) H (copy_key_length _)) as Hs.
   unfold latched in *. latch_cases g b H; rewrite Etest, Eberr.
-  - rewrite DeriveKey_tie. cbn [rbind]. destruct Hs as (g' & -> & Hr). cbn [rbind].
+  - rewrite DeriveKey_tie by exact Hkh. cbn [rbind]. destruct Hs as (g' & -> & Hr). cbn [rbind].
     exists g'. split; [reflexivity|exact Hr].
   - eexists; split; [reflexivity|exact H].
 Qed.
@@ -210,10 +217,10 @@ Proof.
   - cbn [step_res]. eexists; split; [reflexivity|exact H].
 Qed.
 
-Theorem AddHash_tie (CB : option (list N) -> list N) g b h : brel g b ->
+Theorem AddHash_tie (CB : option (list N) -> list N) g b h : h <> None -> brel g b ->
   step_res (Kernels3.GCSBuilder_AddHash CB g h) (add_hash b (CB h)).
 Proof.
-  intros H. unfold Kernels3.GCSBuilder_AddHash, add_hash.
+  intros Hh H. unfold Kernels3.GCSBuilder_AddHash, add_hash. rewrite deref_nn_bind by exact Hh.
   pose proof (AddEntry_tie g b (CB h) H) as Ha. unfold latched.
   latch_cases g b H; rewrite Etest, Eberr.
   - destruct (add_entry b (CB h)) as [b'|e|k]; cbn [step_res] in *; [|exact Ha|now rewrite Ha].
@@ -267,19 +274,19 @@ Proof.
   exists g4. split; [reflexivity|exact H4].
 Qed.
 
-Theorem WithKeyHashPNM_tie (CB : option (list N) -> list N) kh p n m :
+Theorem WithKeyHashPNM_tie (CB : option (list N) -> list N) kh p n m : kh <> None ->
   exists g', Kernels3.WithKeyHashPNM CB kh p n m = Ok (Some g') /\ brel g' (with_key_hash_pnm (CB kh) p n m).
 Proof.
-  unfold Kernels3.WithKeyHashPNM, with_key_hash_pnm. rewrite DeriveKey_tie. cbn [rbind].
+  intro Hkh. unfold Kernels3.WithKeyHashPNM, with_key_hash_pnm. rewrite DeriveKey_tie by exact Hkh. cbn [rbind].
   destruct (WithKeyPNM_tie (derive_key (CB kh)) p n m (copy_key_length _)) as (g' & -> & Hr).
   exists g'. split; [reflexivity|exact Hr].
 Qed.
 
-Theorem WithKeyHash_tie (CB : option (list N) -> list N) kh :
+Theorem WithKeyHash_tie (CB : option (list N) -> list N) kh : kh <> None ->
   exists g', Kernels3.WithKeyHash CB kh = Ok (Some g') /\ brel g' (with_key_hash (CB kh)).
 Proof.
-  unfold Kernels3.WithKeyHash, with_key_hash. change default_p with 19. change default_m with 784931.
-  destruct (WithKeyHashPNM_tie CB kh 19 0 784931) as (g' & -> & Hr).
+  intro Hkh. unfold Kernels3.WithKeyHash, with_key_hash. change default_p with 19. change default_m with 784931.
+  destruct (WithKeyHashPNM_tie CB kh 19 0 784931 Hkh) as (g' & -> & Hr).
   exists g'. split; [reflexivity|exact Hr].
 Qed.
 
